@@ -47,7 +47,7 @@ Judge ==
       P == E.probe
       fresh(auth, tok) == [ex |-> TRUE, auth |-> auth, tok |-> tok, created |-> t, lus |-> {t}]
       \* does the probe say the write created the session anew?
-      anew == gone \/ (~kept /\ P.ex /\ P.created = t /\ A.created # t)
+      anew == gone \/ (~kept /\ P.ex /\ P.createdKnown /\ P.created = t /\ A.created # t)
   IN
   CASE E.op \in {"GetTok", "GetAuth"} ->
         LET have == IF E.op = "GetTok" THEN A.tok ELSE A.auth
@@ -66,7 +66,7 @@ Judge ==
                  ELSE (IF E.op = "SetTok" THEN [A EXCEPT !.tok = E.v, !.lus = {t}] ELSE [A EXCEPT !.auth = E.v, !.lus = {t}])
         IN IF E.err THEN <<{V("C12", "write-reports-error")}, A>>
            ELSE IF ~P.ex THEN <<{V("C12", "write-not-visible")}, B>>
-           ELSE IF P.created # B.created THEN <<{V("C12", "creation-time-moved"), V("C10", "creation-time-moved")}, B>>
+           ELSE IF P.createdKnown /\ P.created # B.created THEN <<{V("C12", "creation-time-moved"), V("C10", "creation-time-moved")}, B>>
            ELSE IF P.tok # (B.tok # 0) \/ P.auth # (B.auth # 0) THEN <<{V("C12", "write-disturbs-other-member")}, B>>
            ELSE <<{}, B>>
     [] E.op = "ClearAuth" ->
@@ -94,6 +94,13 @@ Next ==
        [] E.ev = "stick" -> now' = E.now /\ UNCHANGED <<cfg, m, skip, viol, fired>>
        [] E.ev = "sop" ->
             IF skip THEN UNCHANGED <<now, cfg, m, skip, viol, fired>>
+            ELSE IF E.mutated = 1
+            THEN \* what an earlier read returned changed when the store was written afterwards: a read result is a value
+                 /\ viol' = viol \cup {V("C12", "earlier-read-result-changed-by-a-later-operation")} /\ skip' = TRUE
+                 /\ UNCHANGED <<now, cfg, m, fired>>
+            ELSE IF E.faultHit /\ E.err
+            THEN \* a Redis command of the operation failed and the store said so: what is stored under the id is not known any more
+                 /\ skip' = TRUE /\ fired' = Bump(fired, "reportedCommandFault") /\ UNCHANGED <<now, cfg, m, viol>>
             ELSE LET j == Judge IN
                  /\ viol' = viol \cup j[1]
                  /\ skip' = (j[1] # {})
